@@ -3,6 +3,7 @@ package vc
 import (
 	"fmt"
 	"go/ast"
+	"go/constant"
 	"go/token"
 	"go/types"
 	"os"
@@ -34,20 +35,20 @@ type Exec struct {
 	goalReach  string
 	atCallSeen map[*Clause]int
 	revealAll  bool
-	g         *Gen
-	w         *World
-	obls      []*Obligation
-	allocN    uint32
-	epochN    int
-	epochs    []*epoch
-	compCache map[types.Type][]comp
-	tags      map[string]uint32
-	tagTypes  map[uint32]types.Type
-	oblCount  map[string]int
-	specDepth int
-	oldHeaps  []*Heap
-	stack     []*ssa.Function
-	notes     map[string]bool
+	g          *Gen
+	w          *World
+	obls       []*Obligation
+	allocN     uint32
+	epochN     int
+	epochs     []*epoch
+	compCache  map[types.Type][]comp
+	tags       map[string]uint32
+	tagTypes   map[uint32]types.Type
+	oblCount   map[string]int
+	specDepth  int
+	oldHeaps   []*Heap
+	stack      []*ssa.Function
+	notes      map[string]bool
 	// safety obligations are generated with these property ids ("" = none)
 	safeProps   []string
 	safeOn      bool
@@ -785,11 +786,48 @@ func (f *frame) enterCutLoop(n *node, heap *Heap) *Heap {
 	head := x.g.Const("loophead", SortBool)
 	x.g.Assume(implies(head, n.reach))
 	n.reach = head
+	// The hidden index of a `for i, v := range slice` loop is lowered by go/ssa to
+	// phi(-1, index+1), advanced only while index+1 < len: it is never below -1 and stays
+	// below the length. (Checked
+	// against the lowering: one edge the constant -1, the other an addition of 1 to the phi.)
+	for _, ins := range n.blk.Instrs {
+		phi, ok := ins.(*ssa.Phi)
+		if !ok {
+			break
+		}
+		if phi.Comment != "rangeindex" || len(phi.Edges) != 2 {
+			continue
+		}
+		minus1, plus1 := false, false
+		for _, e := range phi.Edges {
+			if k, ok := e.(*ssa.Const); ok && k.Value != nil && k.Value.Kind() == constant.Int {
+				if v, exact := constant.Int64Val(k.Value); exact && v == -1 {
+					minus1 = true
+				}
+			}
+			if b, ok := e.(*ssa.BinOp); ok && b.Op == token.ADD && b.X == phi {
+				if k, ok := b.Y.(*ssa.Const); ok && k.Value != nil {
+					if v, exact := constant.Int64Val(k.Value); exact && v == 1 {
+						plus1 = true
+					}
+				}
+			}
+		}
+		if minus1 && plus1 {
+			if v := n.env[phi]; len(v.C) == 1 {
+				// ... and below the length of the slice, which is below 2^62
+				x.g.Assume(implies(head, and("(bvsge "+v.C[0]+" "+bvLit(^uint64(0), 64)+")", "(bvslt "+v.C[0]+" "+bvLit(1<<62, 64)+")")))
+			}
+		}
+	}
 	// assume the invariant for the arbitrary iteration
 	n.heap = nh
 	for _, inv := range li.invs {
 		t, _ := f.evalInvariant(li, inv, n, -1, nh, false)
 		x.g.Assume(implies(n.reach, t))
+		if inv.Unchecked {
+			x.note("trusted assumption (loop counter treated as a mathematical integer) in %s: %s", f.fn.Name(), inv.Text)
+		}
 	}
 	return nh
 }
@@ -821,6 +859,9 @@ func (f *frame) checkInvariantAt(li *loopInfo, from *node, slot int, cond string
 		return
 	}
 	for _, inv := range li.invs {
+		if inv.Unchecked {
+			continue
+		}
 		t, facts := f.evalInvariant(li, inv, from, slot, heap, true)
 		f.x.oblige(kind, fmt.Sprintf("loop%d.%d", li.ordinal, inv.N), inv.Props, and(cond, facts, not(t)), f.fn, li.header.Instrs[0].Pos())
 	}
